@@ -144,12 +144,19 @@ func c03ABI(c *core.Ctx, tablesOnly bool) {
 		sh = shapes[6+c.R.Intn(4)]
 	}
 	N, P, B := sh[0], sh[1], sh[2]
-	T := []int{1, 3, 12, 30}[c.R.Intn(4)]
+	T := []int{1, 3, 12, 30, 0, 1, 2, 12}[c.R.Intn(8)] // also the empty series: the library still initialises / returns the states
 	wc := 0
 	if needsWidthClass(model) {
 		wc = widthClassFor(c.R, N)
 	}
-	run := GenRun(model, c.R, N, P, B, T, wc)
+	run := GenRun(model, c.R, N, P, B, max(T, 1), wc)
+	if T == 0 {
+		if EmptySeriesOK(model) {
+			run = emptied(run)
+		} else {
+			T = 1 // this model's kernel has no answer for an empty series (Go API and C entry point alike)
+		}
+	}
 	mode := c.R.Intn(3) // 0: caller states, 1: initStates with states pointer, 2: initStates with NULL states
 	var warm *MRun
 	if mode == 0 && c.R.Bool(0.5) {
@@ -162,6 +169,9 @@ func c03ABI(c *core.Ctx, tablesOnly bool) {
 		c.Tag("abi:states")
 	} else {
 		c.Tag("abi:initstates")
+	}
+	if T == 0 {
+		c.Tag("abi:empty-series")
 	}
 	// Go API reference
 	p, err := Prepare(run)
